@@ -290,6 +290,44 @@ LAYOUTS = [{"nl": nl, "decoy": d, "in": w} for nl, d, w in [
 ]]
 
 
+# ------------------------------------------------------------------ defs shadowing defs
+SHADOWING = [
+    # (name, template, expected output with whitespace removed)
+    ("nested def shadows the top-level def of the same name inside its enclosing def",
+     '<%def name="f()">top-f</%def><%def name="outer()"><%def name="f()">nested-f</%def>[${f()}]</%def>${outer()}|${f()}', "[nested-f]|top-f"),
+    ("two levels down the nearest enclosing definition is seen",
+     '<%def name="f()">top-f</%def><%def name="a()"><%def name="f()">a-f</%def><%def name="b()">(${f()})</%def>[${b()}]</%def>${a()}/${f()}', "[(a-f)]/top-f"),
+    ("nested def with another signature than the top-level one",
+     '<%def name="f()">top-f</%def><%def name="outer()"><%def name="f(n, *, k=2)">nested-${n}-${k}</%def>[${f(1, k=3)}]</%def>${outer()}|${f()}', "[nested-1-3]|top-f"),
+    ("nested def in an anonymous block shadows the top-level def",
+     '<%def name="f()">top-f</%def><%block><%def name="f()">blk-f</%def>[${f()}]</%block>', "[blk-f]"),  # (what f means AFTER the block is not asserted)
+    ("nested def shadows a named block of the same name",
+     '<%block name="f">blockf</%block><%def name="outer()"><%def name="f()">nested-f</%def>[${f()}]</%def>${outer()}', "blockf[nested-f]"),
+    ("buffered nested def shadows the top-level def, used in a concatenation; a plain one through capture",
+     '<%def name="f()">top-f</%def><%def name="g()">top-g</%def><%def name="outer()"><%def name="f()" buffered="True">nested-f</%def><%def name="g()">nested-g</%def>'
+     '[${"<" + f() + ">"}${capture(g)}]</%def>${outer()}|${f()}${g()}', "[<nested-f>nested-g]|top-ftop-g"),
+    ("nested def is the target of a call with content",
+     '<%def name="f()">top-f(${caller.body()})</%def><%def name="outer()"><%def name="f()">nested-f(${caller.body()})</%def><%call expr="f()">B</%call></%def>${outer()}|<%call expr="f()">C</%call>',
+     "nested-f(B)|top-f(C)"),
+    ("a def argument shadows the top-level def of that name", '<%def name="f()">top-f</%def><%def name="g(f)">[${f}]</%def>${g("arg")}|${f()}', "[arg]|top-f"),
+]
+
+
+def run_shadowing(res):
+    T = _st["Template"]
+    for name, text, exp in SHADOWING:
+        for strict in (False, True):
+            res.evaluations += 1
+            res.count("shadowing_checked")
+            try:
+                got = "".join(T(text, strict_undefined=strict).render_unicode().split())
+            except Exception as e:
+                got = "%s: %s" % (type(e).__name__, e)
+            if got != exp:
+                res.violate("def-shadowing", "%s (strict_undefined=%s): template %r rendered %r, expected %r" % (name, strict, text, got, exp))
+        res.nontrivial("shadow", name)
+
+
 # ------------------------------------------------------------------ isolation
 def run_isolation(res):
     L = _st["TemplateLookup"]
@@ -427,6 +465,7 @@ def run_reserved(res):
 
 def gen_cases(tier, seed):
     yield {"kind": "isolation"}
+    yield {"kind": "shadowing"}
     yield {"kind": "reserved"}
     kmax = 3 if tier == "quick" else 5
     items = []
@@ -452,6 +491,8 @@ def run_case(case):
         run_resolution(case, res)
     elif k == "isolation":
         run_isolation(res)
+    elif k == "shadowing":
+        run_shadowing(res)
     elif k == "reserved":
         run_reserved(res)
     return res
